@@ -820,6 +820,10 @@ def run(ctx):
     found |= stream_gate(ctx, consts, jobs)
     found |= stream_api(ctx, consts, jobs, per_job=2 if quick else 12)
     found |= stream_truncate(ctx, consts, alive)
+    from .. import closeown                          # descriptor ownership at sf_close when a close handler reports a problem (VOX clipping count, close under EFBIG)
+    found |= closeown.run(ctx)
+    from .. import shortio                           # read () / write () interposed: short transfers and EINTR on the descriptor routes against virtual I/O
+    found |= bool(shortio.run(ctx, "C14").get("failures"))
 
     if failed and not found:
         ctx.violation("lean-stage", "theorem(s) no longer check: %s\nno failing input was found by the shim, gate and public-API streams\n%s"
